@@ -276,9 +276,11 @@ pub fn parse_file_internal(context: &ParseContext) -> Result<(), Error> {
     };
 
     let mut include_paths = include_paths.clone();
+    let mut own_directory = None;
     if let Some(parent) = current_path.parent() {
         if let None = include_paths.get(parent) {
             include_paths.insert(parent.to_path_buf());
+            own_directory = Some(parent.to_path_buf());
         }
     }
 
@@ -287,7 +289,7 @@ pub fn parse_file_internal(context: &ParseContext) -> Result<(), Error> {
 
     let include_paths = RefCell::new(include_paths);
 
-    let context = ParseContext {
+    let file_context = ParseContext {
         current_path,
         include_paths,
         include_depth,
@@ -297,7 +299,15 @@ pub fn parse_file_internal(context: &ParseContext) -> Result<(), Error> {
         messages,
     };
 
-    parse(source.as_str(), &context)?;
+    parse(source.as_str(), &file_context)?;
+
+    // directories added by .includepath inside the file stay in effect for the file that included it
+    // (the file's own directory does not)
+    for path in file_context.include_paths.borrow().iter() {
+        if Some(path) != own_directory.as_ref() {
+            context.include_paths.borrow_mut().insert(path.clone());
+        }
+    }
 
     Ok(())
 }
